@@ -422,6 +422,12 @@ def r_boundedstore(idx, rep, rule="R-BOUNDEDSTORE", modules=None, floor=3):
                     a = rng(loops[0])
                     if a is not None and len(a) == 1:
                         bound = _cap_text(a[0])
+                    elif a is not None and len(a) == 2 and isinstance(const(a[0]), int) and const(a[0]) >= 0:
+                        # a peeled loop: the counter starts at k after k items were stored in front of `for j in range(k, N)`: k + (N - k) = N stores
+                        inits = [x for x in ast.walk(f.node) if isinstance(x, ast.Assign) and len(x.targets) == 1 and isinstance(x.targets[0], ast.Name)
+                                 and x.targets[0].id == counter and isinstance(const(x.value), int) and x.lineno < loops[0].lineno]
+                        if inits and const(inits[-1].value) <= const(a[0]):
+                            bound = _cap_text(a[1])
                     elif a is None and isinstance(loops[0].iter, ast.Name):
                         bound = "len(%s)" % loops[0].iter.id
                 elif len(loops) == 2:
